@@ -3,7 +3,8 @@
      bool, int, ints                            delegated to Conv.v (value type mapped both ways)
      choice, choice(multi=True)                 delegated to Choice.v
      float, floats, custom converters (TyOther) UErr Unmodelled (fail closed)
-   Oracles: pyeval (eval of a numeric text that int() refuses), expanduser (os.path.expanduser).
+   Oracles: pyeval (eval of a numeric text that int() refuses), expanduser (os.path.expanduser; None = it raised
+   ValueError, e.g. a NUL byte after the tilde: the converter turns that into a RuntimeError).
    Values of a Python type a converter was not written for: where the Python raises at once the
    model gives the Crash class; where it returns something that is no word list (a word whose value is
    not a str, ...) the model answers UErr Unmodelled. *)
@@ -129,15 +130,19 @@ Definition to_choice (v:pyval) : option Choice.pyv :=
 
 Section Oracles.
   Variable pyeval : str -> option Conv.evr.
-  Variable expanduser : str -> str.
+  Variable expanduser : str -> option str.
 
   (* the "%.10g" oracle is only reached by float types, which are not modelled here *)
   Definition no_fmt : Conv.num -> option str := fun _ => None.
 
-  Definition path_from_words (ws:list word) : pyval :=
+  (* path_converters.from_words: ValueError of os.path.expanduser -> RuntimeError citing words[0] *)
+  Definition path_from_words (ws:list word) : res pyval :=
     match str_from_words ws with
-    | VStr s => VStr (expanduser s)
-    | v => v
+    | VStr s => match expanduser s with
+                | Some p => Ok (VStr p)
+                | None => Conv.err_at ws "PathRefused" s
+                end
+    | v => Ok v
     end.
 
   (* converter.from_words(words, master) ; optional = master.optional *)
@@ -147,7 +152,7 @@ Section Oracles.
     | TyStrings => Ok (strings_from_words ws)
     | TyStr | TyKey => Ok (str_from_words ws)
     | TyQstr => Ok (qstr_from_words ws)
-    | TyPath => Ok (path_from_words ws)
+    | TyPath => path_from_words ws
     | TyChoice multi => do v <- Choice.choice_from_words multi optional ws; Ok (of_choice v)
     | TyOther _ => unmodelled "type"
     | _ =>
